@@ -207,12 +207,51 @@ pub fn check_block(choices: &Vec<u16>, which: usize) -> Out {
     }
 }
 
+/// two or three hash procedures called one after the other in the same execution (the second and
+/// third run on whatever the earlier ones left in their locals): every digest is the reference's
+pub fn check_sequence(choices: &Vec<u16>) -> Out {
+    let mut ch = Ch::new(choices);
+    let hexs = |b: &[u8]| b.iter().map(|x| format!("{:02x}", x)).collect::<String>();
+    let k = 2 + ch.pick(2);
+    let rest: Vec<u64> = SENT.to_vec();
+    let mut stack: Vec<u64> = vec![];
+    let mut src = String::from("use.std::crypto::hashes::blake3\nuse.std::crypto::hashes::sha256\nuse.std::crypto::hashes::keccak256\nbegin\n");
+    let mut names = vec![];
+    let mut inputs = vec![];
+    let mut want: Vec<u64> = vec![];
+    for i in 0..k {
+        let which = ch.pick(5);
+        let (name, n) = [("blake3::hash_1to1", 32), ("blake3::hash_2to1", 64), ("sha256::hash_1to1", 32), ("sha256::hash_2to1", 64), ("keccak256::hash", 64)][which];
+        let b = input_bytes(&mut ch, n);
+        let (words, digest) = match which {
+            0 | 1 => (words_le(&b), words_le(blake3::hash(&b).as_bytes())),
+            2 | 3 => (words_be(&b), words_be(&sha2::Sha256::digest(&b))),
+            _ => (words_keccak(&b), words_keccak(&sha3::Keccak256::digest(&b))),
+        };
+        stack.extend(words);
+        src.push_str(&format!("exec.{name}\n"));
+        if i + 1 < k {
+            // the digest of an earlier call is checked in place and dropped
+            let d: Vec<String> = digest.iter().rev().map(|x| x.to_string()).collect();
+            src.push_str(&format!("push.{} assert_eqw.err={} push.{} assert_eqw.err={}\n", d[4..8].join("."), 100 + i, d[0..4].join("."), 200 + i));
+        } else {
+            want = digest;
+        }
+        names.push(name);
+        inputs.push(hexs(&b));
+    }
+    src.push_str("end");
+    stack.extend(rest.clone());
+    let label = format!("sequence:{}", names.join("+"));
+    run_and_compare(&label, &src, stack, want, rest, json!({"calls": names, "inputs": inputs}))
+}
+
 pub fn run(ctx: &Ctx) {
     let read = |f: &str| -> Vec<String> {
         std::fs::read_to_string(format!("/repo/stdlib/asm/crypto/hashes/{f}.masm")).unwrap_or_default().lines().filter_map(|l| l.strip_prefix("export.")).map(|l| l.split('.').next().unwrap().to_string()).collect()
     };
     ctx.set_extra("exports", json!({"blake3": read("blake3"), "sha256": read("sha256"), "keccak256": read("keccak256"), "native": read("native")}));
-    ctx.set_rule("32-/64-byte inputs (all-zero, all-ones, single bit, byte ramp, random) for blake3::hash_1to1/2to1, sha256::hash_1to1/2to1, keccak256::hash, byte strings of length 0..200 (incl. the padding boundaries 55/56/119/120) for sha256::hash_memory, 64-bit lanes for the keccak bit-interleaving helpers, element sequences of 1..40 words at four start addresses for native::hash_memory / hash_memory_even / state_to_digest; oracle: the blake3, sha2, sha3 crates and miden-crypto's Rpo256::hash_elements; digest exact, six (or seventeen, beyond position 15) sentinel elements below untouched; non-trivial = every case; distinct by input");
+    ctx.set_rule("32-/64-byte inputs (all-zero, all-ones, single bit, byte ramp, random) for blake3::hash_1to1/2to1, sha256::hash_1to1/2to1, keccak256::hash, byte strings of length 0..200 (incl. the padding boundaries 55/56/119/120) for sha256::hash_memory, 64-bit lanes for the keccak bit-interleaving helpers, element sequences of 1..40 words at four start addresses for native::hash_memory / hash_memory_even / state_to_digest; oracle: the blake3, sha2, sha3 crates and miden-crypto's Rpo256::hash_elements; digest exact, six (or seventeen, beyond position 15) sentinel elements below untouched; non-trivial = every case; distinct by input; plus sequences of two or three hash calls (any mix of the five block procedures) in one execution, every digest compared");
     ctx.assume("the empty-capacity RPO state [0;4] passed to hash_memory_even is the one hash_elements uses for an even number of words");
     let n = |q, t| ctx.n(q, t);
     ctx.run("blake3-1to1", n(300, 30_000), || vec(any::<u16>(), 40..41), |c| check_block(c, 0));
@@ -223,6 +262,7 @@ pub fn run(ctx: &Ctx) {
     ctx.run("keccak-interleave", n(600, 60_000), || vec(any::<u16>(), 12..13), |c| check_block(c, 5));
     ctx.run("sha256-memory", n(200, 20_000), || vec(any::<u16>(), 220..221), |c| check_block(c, 6));
     ctx.run("native", n(600, 60_000), || vec(any::<u16>(), 700..701), |c| check_block(c, 7));
+    ctx.run("sequence", n(400, 40_000), || vec(any::<u16>(), 230..231), check_sequence);
 }
 
 pub fn replay(ctx: &Ctx, v: &serde_json::Value) {
